@@ -355,7 +355,7 @@ func c18Generate(r *core.Run) []c18Config {
 		}
 	}
 	// random larger configurations: 2-4 backends, prefix lists of 1-3 (+duplicates)
-	nRand := r.Pick(600, 10000)
+	nRand := r.Pick(600, 8000)
 	for k := 0; k < nRand; k++ {
 		n := []int{2, 2, 3, 3, 3, 3, 4, 4}[rng.Intn(8)]
 		if quick {
